@@ -817,17 +817,20 @@ func (ts *Service) handleCreateTask(w http.ResponseWriter, r *http.Request) {
 		newTask.DBRPs = dbrps
 	}
 
-	// Save task
-	err = ts.tasks.Create(newTask)
-	if err != nil {
-		httpd.HttpError(w, err.Error(), true, http.StatusInternalServerError)
-		return
-	}
+	// Associate the task with its template before it is saved:
+	// an association without a task is ignored, a templated task without an association would miss template updates.
 	if newTask.TemplateID != "" {
 		if err := ts.templates.AssociateTask(newTask.TemplateID, newTask.ID); err != nil {
 			httpd.HttpError(w, fmt.Sprintf("failed to associate task with template: %s", err), true, http.StatusInternalServerError)
 			return
 		}
+	}
+
+	// Save task
+	err = ts.tasks.Create(newTask)
+	if err != nil {
+		httpd.HttpError(w, err.Error(), true, http.StatusInternalServerError)
+		return
 	}
 
 	// Count new task
@@ -997,6 +1000,15 @@ func (ts *Service) handleUpdateTask(w http.ResponseWriter, r *http.Request) {
 		updated.LastEnabled = now
 	}
 
+	associationChanged := original.ID != updated.ID || original.TemplateID != updated.TemplateID
+	if associationChanged && updated.TemplateID != "" {
+		// Associate before saving, see handleCreateTask.
+		if err := ts.templates.AssociateTask(updated.TemplateID, updated.ID); err != nil {
+			httpd.HttpError(w, fmt.Sprintf("failed to associate task with template: %s", err), true, http.StatusInternalServerError)
+			return
+		}
+	}
+
 	if original.ID != updated.ID {
 		// Task ID changed delete and re-create.
 		if err := ts.tasks.Create(updated); err != nil {
@@ -1011,10 +1023,6 @@ func (ts *Service) handleUpdateTask(w http.ResponseWriter, r *http.Request) {
 				keyvalue.KV("newID", updated.ID),
 			)
 		}
-		if err := ts.updateTaskAssociation(original, updated); err != nil {
-			httpd.HttpError(w, err.Error(), true, http.StatusInternalServerError)
-			return
-		}
 		if original.Status == Enabled && updated.Status == Enabled {
 			// Stop task and start it under new name
 			ts.stopTask(original.ID)
@@ -1028,9 +1036,11 @@ func (ts *Service) handleUpdateTask(w http.ResponseWriter, r *http.Request) {
 			httpd.HttpError(w, fmt.Sprintf("failed to replace task definition: %s", err.Error()), true, http.StatusInternalServerError)
 			return
 		}
-		if err := ts.updateTaskAssociation(original, updated); err != nil {
-			httpd.HttpError(w, err.Error(), true, http.StatusInternalServerError)
-			return
+	}
+	if associationChanged && original.TemplateID != "" {
+		if err := ts.templates.DisassociateTask(original.TemplateID, original.ID); err != nil {
+			ts.diag.Error("failed to disassociate task from template", err,
+				keyvalue.KV("template", original.TemplateID), keyvalue.KV("task", original.ID))
 		}
 	}
 
@@ -1143,24 +1153,6 @@ func (ts *Service) convertTask(t Task, scriptFormat, dotView string, tm *kapacit
 		LastEnabled:    t.LastEnabled,
 		Error:          errMsg,
 	}, nil
-}
-
-// updateTaskAssociation moves the template association of a task once its new definition has been saved.
-func (ts *Service) updateTaskAssociation(original, updated Task) error {
-	if original.ID == updated.ID && original.TemplateID == updated.TemplateID {
-		return nil
-	}
-	if original.TemplateID != "" {
-		if err := ts.templates.DisassociateTask(original.TemplateID, original.ID); err != nil {
-			return fmt.Errorf("failed to disassociate task with template: %s", err)
-		}
-	}
-	if updated.TemplateID != "" {
-		if err := ts.templates.AssociateTask(updated.TemplateID, updated.ID); err != nil {
-			return fmt.Errorf("failed to associate task with template: %s", err)
-		}
-	}
-	return nil
 }
 
 func (ts *Service) convertToServiceVar(cvar client.Var) (Var, error) {
@@ -1439,18 +1431,21 @@ func (ts *Service) deleteTask(id string) error {
 		}
 		return err
 	}
+	vars.NumTasksVar.Add(-1)
+	if task.Status == Enabled {
+		vars.NumEnabledTasksVar.Add(-1)
+		ts.TaskMasterLookup.Main().DeleteTask(id)
+	}
+	if err := ts.tasks.Delete(id); err != nil {
+		return err
+	}
 	if task.TemplateID != "" {
 		if err := ts.templates.DisassociateTask(task.TemplateID, task.ID); err != nil {
 			ts.diag.Error("failed to disassociate task from template", err,
 				keyvalue.KV("template", task.TemplateID), keyvalue.KV("task", task.ID))
 		}
 	}
-	vars.NumTasksVar.Add(-1)
-	if task.Status == Enabled {
-		vars.NumEnabledTasksVar.Add(-1)
-		ts.TaskMasterLookup.Main().DeleteTask(id)
-	}
-	return ts.tasks.Delete(id)
+	return nil
 }
 
 func (ts *Service) convertTemplate(t Template, scriptFormat string) (client.Template, error) {
@@ -1890,6 +1885,10 @@ func (ts *Service) updateAllAssociatedTasks(old, new Template, taskIds []string)
 				}
 				continue
 			}
+			if task.TemplateID != new.ID {
+				// Not updated above
+				continue
+			}
 			task.TemplateID = old.ID
 			task.TICKscript = old.TICKscript
 			task.Type = old.Type
@@ -1918,6 +1917,11 @@ func (ts *Service) updateAllAssociatedTasks(old, new Template, taskIds []string)
 		}
 		if err != nil {
 			return fmt.Errorf("error retrieving associated task %s: %s", taskId, err)
+		}
+		if task.TemplateID != old.ID {
+			// Stale association, the task is not (or no longer) defined by this template.
+			ts.templates.DisassociateTask(old.ID, taskId)
+			continue
 		}
 		if old.ID != new.ID {
 			// Update association
